@@ -150,6 +150,10 @@ pub fn check_simple(len: isize) -> CaseResult {
         if it.next().is_some() {
             errs.push("consume");
         }
+        let text: String = (0..len).map(|i| if i % 2 == 0 { 'é' } else { 'a' }).collect();
+        if text.chars().consume().next().is_some() {
+            errs.push("consume(chars)");
+        }
         // filtered sources (not ExactSize)
         for keep in 0..=len {
             let f = || v.clone().into_iter().filter(move |x| *x < keep);
@@ -160,6 +164,13 @@ pub fn check_simple(len: isize) -> CaseResult {
                 (Ok(0), 1) => {},
                 (Err(_), k) if k != 1 => {},
                 _ => errs.push("single(filter)"),
+            }
+            // consume leaves nothing behind, whatever the size hint promised
+            if f().consume().next().is_some() {
+                errs.push("consume(filter)");
+            }
+            if v.clone().into_iter().skip_while(move |x| *x < keep / 2).consume().next().is_some() {
+                errs.push("consume(skip_while)");
             }
             match (f().last_result(), keep) {
                 (Ok(x), k) if k > 0 && x == k - 1 => {},
